@@ -83,6 +83,28 @@ func c06Gen(tier string, seed int64) []core.Case {
 			}
 		}
 	}
+	have := map[string]bool{}
+	for _, c := range cs {
+		have[c.ID] = true
+	}
+	// every component of the short proof lists set to a multiple of the group order (responses that are 0 modulo q make a
+	// verifier multiply a point by zero): all positions, not the sampled first/last/seeded ones
+	for _, sc := range faultSessions(tier) {
+		for _, fi := range staticFields[sc.proto] {
+			if !fi.Repeated || fi.Len > 13 || fi.Len < 2 {
+				continue
+			}
+			for ix := 0; ix < fi.Len; ix++ {
+				for _, how := range []string{"q", "2q"} {
+					f := faultSpec{fi.Type, fi.Field, fmt.Sprint(ix), how, []string{"low", "mid", "high"}[(k+ix)%3], false, ""}
+					id := fmt.Sprintf("W1/%s/%s", sc.proto, f.String())
+					if !have[id] {
+						cs = append(cs, core.Case{ID: id, Class: id, Kind: "w1", P: f.P(sc.P()), Cost: sc.cost})
+					}
+				}
+			}
+		}
+	}
 	// the smallest committees, reduced catalogue
 	for _, sc := range smallFaultSessions() {
 		for fiI, fi := range staticFields[sc.proto] {
